@@ -1,13 +1,13 @@
 package main
 
 import (
-	"math"
-	"runtime"
-	"sync/atomic"
 	"fmt"
+	"math"
 	"net"
+	"runtime"
 	"sort"
 	"sync"
+	"sync/atomic"
 	"time"
 
 	cactus "github.com/cactus/go-statsd-client/v5/statsd"
